@@ -582,7 +582,14 @@ def _rand_exact_op(g, x, allow_fc=False, big=False):
         parts = g.split_v(x, sizes, ax)
         outs_ = []
         for p_ in parts:
-            q_ = g.pool(p_, "maxpool", 1, 1, PAD_SAME) if r.integers(0, 2) else g.unary("relu", p_)
+            t_ = int(r.integers(0, 4))
+            if t_ == 0:
+                q_ = g.pool(p_, "maxpool", 1, 1, PAD_SAME)
+            elif t_ == 1:
+                q_ = g.unary("relu", p_)
+            else:
+                # a padded window over the part only: the slice is folded into the consumer as a read offset, the padding belongs at the borders of the part
+                q_ = g.pool(p_, "maxpool", int(r.choice([1, 3, 2])), 1, PAD_SAME, kw=int(r.choice([3, 3, 2, 5])))
             outs_.append(q_)
         return g.concat(outs_, ax)
     if choice == "split":
